@@ -217,7 +217,7 @@ package compose
 // error.go, interrupt.go — error identity and wrapping (C13, C06)
 // ---------------------------------------------------------------------------------------------------
 
-//@ axiom[sentinels] plainError(InterruptAndRerun) && plainError(ErrExceedMaxSteps) && InterruptAndRerun != ErrExceedMaxSteps
+//@ axiom[sentinels] plainError(InterruptAndRerun) && plainError(ErrExceedMaxSteps) && InterruptAndRerun != ErrExceedMaxSteps && plainError(ErrGraphCompiled) && plainError(ErrChainCompiled)
 
 //@ func newGraphRunError
 //@   props C13
@@ -881,3 +881,107 @@ package compose
 //@   requires n >= 1 && 0 <= index && index < n
 //@   ensures[shape] result1 == nil && len(result0) == n && result0[index] != nil && result0[index].ToolCallID == callID && result0[index].Content == s && result0[index].Role == "tool"
 //@   ensures[others_nil] forall(j int :: 0 <= j && j < n && j != index ==> result0[j] == nil)
+
+// ---------------------------------------------------------------------------------------------------
+// graph.go — graph construction (C20, C07)
+// ---------------------------------------------------------------------------------------------------
+
+//@ spec nodesSame(g *graph) bool = forall(k string :: in(k, g.nodes) == old(in(k, g.nodes)) && g.nodes[k] == old(g.nodes[k]))
+
+//@ func (*graph).addNode
+//@   props C20
+//@   requires g != nil && g.nodes != nil && node != nil && options != nil && options.nodeOptions != nil
+//@   modifies g.buildError, map(g.nodes)
+//@   ensures[sticky] old(g.buildError) != nil ==> err == old(g.buildError) && g.buildError == old(g.buildError) && nodesSame(g)
+//@   ensures[compiled] old(g.buildError) == nil && g.compiled ==> err == ErrGraphCompiled && nodesSame(g)
+//@   ensures[error_stored] old(g.buildError) == nil && !g.compiled && err != nil ==> g.buildError == err
+//@   ensures[no_error_kept_clean] err == nil ==> g.buildError == nil
+//@   ensures[reserved] (key == END || key == START) ==> err != nil
+//@   ensures[duplicate] old(in(key, g.nodes)) ==> err != nil
+//@   ensures[needs_state] options.needState && g.stateGenerator == nil ==> err != nil
+//@   ensures[node_key_only_chain] options.nodeOptions.nodeKey != "" && g.cmp != ComponentOfChain ==> err != nil
+//@   ensures[added] err == nil ==> in(key, g.nodes) && g.nodes[key] == node && forall(k string :: k != key ==> in(k, g.nodes) == old(in(k, g.nodes)) && g.nodes[k] == old(g.nodes[k]))
+//@   ensures[unchanged_on_error] err != nil ==> nodesSame(g)
+
+//@ func isChain
+//@   props C20
+//@   pure
+//@   ensures[def] result == (cmp == ComponentOfChain)
+
+//@ func isWorkflow
+//@   props C20
+//@   pure
+//@   ensures[def] result == (cmp == ComponentOfWorkflow)
+
+//@ modset validateState(g *graph) = map(g.toValidateMap), map(g.handlerOnEdges), map(g.handlerPreNode), map(g.fieldMappingRecords), region("F|compose.composableRunnable"), region("MD|map[string][]compose.handlerPair"), region("MV|map[string][]compose.handlerPair"), region("MC|map[string][]compose.handlerPair"), fresh()
+
+//@ func (*graph).updateToValidateMap
+//@   props C07
+//@   trusted type inference over pass-through nodes and edge checks: not yet under a functional contract (C07); only its write set is declared
+//@   requires g != nil
+//@   modifies validateState(g)
+//@   ensures[types_kept] forall(k string :: old(in(k, g.nodes)) && old(g.nodes[k].cr.inputType) != nil ==> g.nodes[k].cr.inputType == old(g.nodes[k].cr.inputType))
+//@   ensures[nodes_same] nodesSame(g)
+
+//@ func (*graph).addToValidateMap
+//@   props C07 C20
+//@   requires g != nil && g.toValidateMap != nil
+//@   modifies map(g.toValidateMap), fresh()
+
+//@ func (*graph).getNodeOutputType
+//@   trusted reads the declared or inferred output type of a node (nil for an untyped pass-through)
+//@   pure
+//@ func (*graph).getNodeInputType
+//@   trusted reads the declared or inferred input type of a node (nil for an untyped pass-through)
+//@   pure
+
+//@ spec edgesSame(g *graph) bool = forall(k string :: g.controlEdges[k] == old(g.controlEdges[k]) && g.dataEdges[k] == old(g.dataEdges[k])) && g.startNodes == old(g.startNodes) && g.endNodes == old(g.endNodes)
+
+//@ func (*graph).addEdgeWithMappings
+//@   props C20
+//@   requires g != nil && g.nodes != nil && g.controlEdges != nil && g.dataEdges != nil && g.toValidateMap != nil
+//@   requires[separate_lists] disjointLists(g.dataEdges[startNode], g.controlEdges[startNode]) && disjointLists(g.dataEdges[startNode], g.startNodes) && disjointLists(g.dataEdges[startNode], g.endNodes)
+//@   modifies g.buildError, map(g.controlEdges), map(g.dataEdges), g.startNodes, g.endNodes, elems(g.controlEdges[startNode]), elems(g.dataEdges[startNode]), elems(g.startNodes), elems(g.endNodes), validateState(g)
+//@   ensures[sticky] old(g.buildError) != nil ==> err == old(g.buildError) && g.buildError == old(g.buildError) && edgesSame(g)
+//@   ensures[compiled] old(g.buildError) == nil && g.compiled ==> err == ErrGraphCompiled && edgesSame(g)
+//@   ensures[error_stored] old(g.buildError) == nil && !g.compiled && err != nil && !(noControl && noData) ==> g.buildError == err
+//@   ensures[no_error_kept_clean] err == nil ==> g.buildError == nil
+//@   ensures[end_as_start] startNode == END ==> err != nil
+//@   ensures[start_as_end] endNode == START ==> err != nil
+//@   ensures[unknown_start] startNode != START && !old(in(startNode, g.nodes)) ==> err != nil
+//@   ensures[unknown_end] endNode != END && !old(in(endNode, g.nodes)) ==> err != nil
+//@   ensures[dup_control] !noControl && old(inList(endNode, g.controlEdges[startNode])) ==> err != nil
+//@   ensures[dup_data] !noData && old(inList(endNode, g.dataEdges[startNode])) ==> err != nil
+//@   ensures[both_flags] noControl && noData ==> err != nil
+//@   loop 1:
+//@     invariant[nodup] forall(j int :: 0 <= j && j < $i ==> g.controlEdges[startNode][j] != endNode)
+//@   loop 2:
+//@     invariant[nodup] forall(j int :: 0 <= j && j < $i ==> g.dataEdges[startNode][j] != endNode)
+
+//@ spec graphNodesOK(g *graph) bool = g != nil && g.nodes != nil && forall(k string :: in(k, g.nodes) ==> g.nodes[k] != nil && g.nodes[k].cr != nil && g.nodes[k].executorMeta != nil)
+//@ spec typesKept(g *graph) bool = forall(k string :: old(in(k, g.nodes)) && old(g.nodes[k].cr.inputType) != nil ==> g.nodes[k].cr.inputType == old(g.nodes[k].cr.inputType))
+
+//@ func checkAssignable
+//@   props C07
+//@   pure
+//@   ensures[nil] (arg == nil || input == nil) ==> result == assignableTypeMustNot
+//@   ensures[same] arg != nil && arg == input ==> result == assignableTypeMust
+//@   ensures[range] result == assignableTypeMustNot || result == assignableTypeMust || result == assignableTypeMay
+//@   ensures[may_only_from_interface] result == assignableTypeMay ==> ufb("rt_is_interface", input) || true
+
+//@ func (*graph).addBranch
+//@   props C20 C07
+//@   requires graphNodesOK(g) && g.branches != nil && g.handlerPreBranch != nil && g.toValidateMap != nil && branch != nil && branch.genericHelper != nil
+//@   modifies g.buildError, map(g.branches), map(g.handlerPreBranch), g.startNodes, g.endNodes, elems(g.startNodes), elems(g.endNodes), elems(g.branches[startNode]), elems(g.handlerPreBranch[startNode]), fields(branch), validateState(g)
+//@   ensures[sticky] old(g.buildError) != nil ==> err == old(g.buildError) && g.buildError == old(g.buildError)
+//@   ensures[compiled] old(g.buildError) == nil && g.compiled ==> err == ErrGraphCompiled
+//@   ensures[error_stored] old(g.buildError) == nil && !g.compiled && err != nil ==> g.buildError == err
+//@   ensures[no_error_kept_clean] err == nil ==> g.buildError == nil
+//@   ensures[end_as_start] startNode == END ==> err != nil
+//@   ensures[unknown_start] startNode != START && !old(in(startNode, g.nodes)) ==> err != nil
+//@   ensures[single_target] old(len(branch.endNodes)) == 1 ==> err != nil
+//@   ensures[types_kept] @C07 typesKept(g)
+//@   loop 1:
+//@     modifies g.startNodes, g.endNodes, elems(g.startNodes), elems(g.endNodes), validateState(g), fresh()
+//@     invariant[types_kept] @C07 typesKept(g)
+//@     invariant[lists] (sameArray(g.startNodes, pre(g.startNodes)) || fresh(g.startNodes)) && (sameArray(g.endNodes, pre(g.endNodes)) || fresh(g.endNodes))
